@@ -44,7 +44,9 @@ def check(ctx):
     ctx.attempt(_chunker)
     ctx.attempt(_preprocess)
     ctx.attempt(_cleanup)
+    ctx.attempt(_thresholds_and_tests)
     ctx.attempt(dispatch_exhaustive)
+    ctx.attempt(common.match_record_roles)
 
 
 def _marker_blocks(ctx):
@@ -198,6 +200,11 @@ def _wildcards(sub, out, inside_repeat=False):
             lo, hi, s2 = av
             if len(s2) == 1 and s2[0][0] in (C.ANY,) and hi > 1:
                 out.append(rx.show([(op, av)]))
+            elif len(s2) == 1 and s2[0][0] is C.IN and hi > 3 and not any(o is C.NEGATE for o, _ in s2[0][1]) \
+                    and sum((v[1] - v[0] + 1) if o is C.RANGE else 1 for o, v in s2[0][1] if o in (C.RANGE, C.LITERAL)
+                            and (chr(v[0] if o is C.RANGE else v).isalpha())) >= 20:
+                # [a-z]{3,6} : (nearly) any word
+                out.append(rx.show([(op, av)]))
             elif len(s2) == 1 and s2[0][0] is C.IN and hi > 3 and any(
                     o is C.CATEGORY and v in (C.CATEGORY_WORD, C.CATEGORY_NOT_SPACE, C.CATEGORY_NOT_DIGIT) for o, v in s2[0][1]):
                 # \w+ / \S+ / \D+ : any word
@@ -267,6 +274,64 @@ def _preprocess(ctx):
                             set(p) <= set(' +\\tnr{}2,^[]') and r in (' ', '\n', '\n\n', '') for p, r in pats)
     ctx.check(ok, 'SINK', 'reduce_whitespace only rewrites whitespace', f"{len(pats)} substitutions",
               f"reduce_whitespace substitutions {pats} touch non-whitespace", key="SINK|reduce_whitespace")
+
+
+def _thresholds_and_tests(ctx):
+    """(a) Both places that decide "long enough to matter" compare the length
+    of the text with the minimum by >= (a block of exactly the minimum length
+    is kept).  (b) cleanup_desc tests the text it then cuts: the endswith()
+    test and the slice act on the same variable."""
+    sites = []
+    for spec in ('plss_parse:rebuild_sec_within', 'PLSSParser.parse'):
+        try:
+            fi = ctx.repo.func(spec)
+        except AnalysisError:
+            continue
+        for c in ast.walk(fi.node):
+            if isinstance(c, ast.Compare) and len(c.ops) == 1 and isinstance(c.left, ast.Call) and dotted(c.left.func) == 'len' \
+                    and isinstance(c.ops[0], (ast.Gt, ast.GtE, ast.Lt, ast.LtE)) \
+                    and any(w in norm(c.comparators[0]).lower() for w in ('min', 'len')) \
+                    and 'unused' in norm(c.left).lower():
+                sites.append((fi, c))
+    if len(sites) >= 2:
+        kinds = {type(c.ops[0]).__name__ for _f, c in sites}
+        strict = [(f, c) for f, c in sites if isinstance(c.ops[0], ast.Gt)]
+        ctx.tri(kinds == {'GtE'}, bool(strict) and 'GtE' in kinds, 'SIB',
+                'unused text of exactly the minimum length counts as long enough everywhere',
+                f"{len(sites)} sites use >=",
+                (f"`{norm(strict[0][1])}` in {strict[0][0].qualname} uses > while the sibling test uses >=: a block of exactly the "
+                 f"minimum length is popped from the unused list but neither re-attached nor flagged") if strict else '',
+                key="SIB|min-length|strict", where=common.loc(strict[0][0], strict[0][1]) if strict else None)
+    else:
+        ctx.undecided('SIB', 'unused text of exactly the minimum length counts as long enough everywhere', 'fewer than two length tests recognised')
+    cd = ctx.repo.func('plss_parse:cleanup_desc')
+    n = 0
+    for node in walk_local(cd.node):
+        if not isinstance(node, ast.If):
+            continue
+        tests = [c for c in ast.walk(node.test) if isinstance(c, ast.Call) and isinstance(c.func, ast.Attribute)
+                 and c.func.attr in ('endswith', 'startswith')]
+        if not tests:
+            continue
+        root = tests[0].func.value
+        while isinstance(root, (ast.Call, ast.Attribute)):
+            root = root.func.value if isinstance(root, ast.Call) and isinstance(root.func, ast.Attribute) else \
+                (root.value if isinstance(root, ast.Attribute) else None)
+            if root is None:
+                break
+        cut = [a for a in ast.walk(node) if isinstance(a, ast.Assign) and isinstance(a.value, ast.Subscript)
+               and isinstance(a.value.slice, ast.Slice) and isinstance(a.targets[0], ast.Name)]
+        if not isinstance(root, ast.Name) or not cut:
+            continue
+        n += 1
+        acted = cut[0].targets[0].id
+        ctx.check(root.id == acted, 'SINK', 'cleanup_desc cuts the text it has just tested',
+                  f"tests `{root.id}`, cuts `{acted}`",
+                  f"`if {norm(node.test)[:50]}` looks at `{root.id}` but `{norm(cut[0])}` cuts `{acted}`: after the first cut the "
+                  f"test still sees the old text, so a second connector is cut off although the text no longer ends with it "
+                  f"(characters of the description are lost)", key="SINK|cleanup_desc|test-act", where=common.loc(cd, node))
+    if n == 0:
+        ctx.undecided('SINK', 'cleanup_desc cuts the text it has just tested', 'endswith / slice pair not recognised')
 
 
 def _cleanup(ctx):
